@@ -2,7 +2,7 @@
   `writeFile` then `readFile`: the content comes back byte for byte.
 -/
 import MotoModel.Proofs.DiskWrite
-import MotoModel.Props.C02
+import MotoModel.Props.C07
 namespace Moto.Disk
 open Moto
 
@@ -129,5 +129,266 @@ theorem blockPieces_written (sd sd3 : Side) (free : List Nat) (content : Bytes) 
   have hs' : s < c := by simpa using hs
   rw [getSector_flat sd3 free i s (by omega), hpl s hs']
   exact sector_piece sd sd3 free content S lb hw hdata hsize hS hlb (8 * i + s) (by omega)
+
+end Moto.Disk
+
+namespace Moto.Disk
+open Moto
+
+/-- the block loop over the blocks `free[i..]` reads the content from sector `8 i` to the end -/
+theorem piecesFrom_written (sd sd3 : Side) (free : List Nat) (content : Bytes) (S lb nb u : Nat) (hw : C11.WFSide sd)
+    (hdata : ∀ j < S, sd3.getD (flatOf free j) [] = setPayload (sd.getD (flatOf free j) []) (sliceJ content j))
+    (hsize : 255 * (S - 1) + lb = content.length) (hlb : lb ≤ 255)
+    (hS : 8 * (nb - 1) + u = S) (hnb : 1 ≤ nb) (hu1 : 1 ≤ u) (hu8 : u ≤ 8) (hlen : free.length = nb) :
+    ∀ (k : Nat) (i : Nat), i + k = nb →
+      piecesFrom sd3 u lb (nb - 1) (free.drop i) i = slice content (8 * i * 255) (S * 255) := by
+  intro k
+  induction k with
+  | zero =>
+    intro i hi
+    have : free.drop i = [] := List.drop_of_length_le (by omega)
+    rw [this]
+    simp only [piecesFrom, slice]
+    have : S * 255 - 8 * i * 255 = 0 := by
+      have : S ≤ 8 * i := by omega
+      have := Nat.mul_le_mul_right 255 this
+      omega
+    rw [this]; simp
+  | succ k ih =>
+    intro i hi
+    have hil : i < free.length := by omega
+    have hd : free.drop i = free.getD i 0 :: free.drop (i + 1) := by
+      rw [List.getD_eq_getElem?_getD, List.getElem?_eq_getElem hil]
+      simp only [Option.getD_some]
+      exact List.drop_eq_getElem_cons hil
+    rw [hd]
+    simp only [piecesFrom]
+    rw [ih (i + 1) (by omega)]
+    by_cases hlast : i = nb - 1
+    · simp only [hlast, if_true]
+      have hbp := blockPieces_written sd sd3 free content S lb hw hdata hsize (by omega) hlb (nb - 1) u lb u hu8 (by omega)
+        (by intro s hs; unfold pieceLen; congr 1; apply propext; constructor <;> intro h <;> omega)
+      rw [hbp]
+      have e : 8 * (nb - 1) + u = S := hS
+      rw [e]
+      have hz : slice content (8 * (nb - 1 + 1) * 255) (S * 255) = [] := by
+        unfold slice
+        have : S * 255 - 8 * (nb - 1 + 1) * 255 = 0 := by
+          have h1 : S ≤ 8 * (nb - 1 + 1) := by omega
+          have := Nat.mul_le_mul_right 255 h1
+          omega
+        rw [this]; simp
+      rw [hz, List.append_nil]
+    · simp only [hlast, if_false]
+      have hbp := blockPieces_written sd sd3 free content S lb hw hdata hsize (by omega) hlb i 8 255 8 (Nat.le_refl _) (by omega)
+        (by intro s hs
+            unfold pieceLen
+            have h1 : ¬ (8 * i + s + 1 = S) := by omega
+            simp only [h1, if_false]
+            split <;> rfl)
+      rw [hbp]
+      apply slice_append
+      · exact Nat.mul_le_mul_right 255 (by omega)
+      · exact Nat.mul_le_mul_right 255 (by omega)
+
+theorem slice_all {α} (l : List α) (b : Nat) (h : l.length ≤ b) : slice l 0 b = l := by
+  unfold slice; simp [List.take_of_length_le h]
+
+/-- **read after write, at the sector level**: if a side holds, in the data sectors of `free`, the
+    255-byte slices of `content` (prefix-written over whatever was there), then `readFile` of an
+    entry whose chain is `free` returns `content`. -/
+theorem readFile_written (sd sd3 : Side) (bat' : List Nat) (free : List Nat) (content : Bytes) (e : Entry)
+    (hw : C11.WFSide sd) (hw3 : C11.WFSide sd3)
+    (hdata : ∀ j < reqSectors content.length, sd3.getD (flatOf free j) [] = setPayload (sd.getD (flatOf free j) []) (sliceJ content j))
+    (hblocks : e.blocks = free) (hlastB : e.lastBytes = lastBytesOf content.length)
+    (hlen : free.length = reqBlocks content.length) (hlt : ∀ b ∈ free, b < 160)
+    (hsz : sizeInBytes bat' e = content.length)
+    (last : Nat) (hlast : free.getLast? = some last) (hst : bat'.getD last 0 = 0xC0 + lastSectorsOf content.length) :
+    readFile sd3 bat' e = content := by
+  obtain ⟨hb1, hu1, hu8, hlb, hS, hsize, _⟩ := size_law content.length
+  unfold readFile
+  rw [hblocks, hlast]
+  dsimp only
+  have hlu : bat'.getD last 0 - Gen.Disk.bsLastBlock = lastSectorsOf content.length := by
+    rw [hst]; have : Gen.Disk.bsLastBlock = 192 := rfl; rw [this]; omega
+  rw [hlu, hlastB, hsz, hlen]
+  have hpieces := piecesFrom_written sd sd3 free content (reqSectors content.length) (lastBytesOf content.length)
+    (reqBlocks content.length) (lastSectorsOf content.length) hw hdata
+    (by rw [← hS]; exact hsize)
+    hlb hS hb1 hu1 hu8 hlen (reqBlocks content.length) 0 (by omega)
+  simp only [List.drop_zero, Nat.mul_zero, Nat.zero_mul] at hpieces
+  have hfull : piecesFrom sd3 (lastSectorsOf content.length) (lastBytesOf content.length) (reqBlocks content.length - 1) free 0 = content := by
+    rw [hpieces]
+    apply slice_all
+    have h' : 255 * (reqSectors content.length - 1) + lastBytesOf content.length = content.length := by rw [← hS]; exact hsize
+    have hS1 : 1 ≤ reqSectors content.length := by omega
+    generalize reqSectors content.length = S at h' hS1 ⊢
+    generalize lastBytesOf content.length = lb at h' hlb ⊢
+    generalize content.length = n at h' ⊢
+    omega
+  have hfill := go_fill sd3 hw3 (lastSectorsOf content.length) (lastBytesOf content.length) (reqBlocks content.length - 1)
+    hu8 (by omega) free 0 (List.replicate content.length 0, 0) [] content.length ⟨by simp, rfl⟩ hlt (by rw [hfull]; exact Nat.le_refl _)
+  rw [hfull] at hfill
+  obtain ⟨h1, _⟩ := hfill
+  rw [h1]; simp
+
+end Moto.Disk
+
+namespace Moto.Disk
+open Moto
+
+theorem linked_last (u : Nat) (c : List Nat) : ∀ (b : List Nat), Linked b c u → ∀ l, c.getLast? = some l → b.getD l 0 = 0xC0 + u := by
+  induction c with
+  | nil => intro b _ l h; simp at h
+  | cons x xs ih =>
+    intro b hlk l hl'
+    cases xs with
+    | nil => simp at hl'; subst hl'; exact hlk
+    | cons y ys => simp only [Linked] at hlk; exact ih b hlk.2 l (by simpa using hl')
+
+theorem findSlot_mem (bat : List Nat) (l : List (Nat × Nat × Bytes)) (s st : Nat) (h : findSlot bat l = .ok (some (s, st))) :
+    ∃ data, (s, st, data) ∈ l := by
+  induction l with
+  | nil => simp [findSlot] at h
+  | cons x rest ih =>
+    obtain ⟨s', st', data⟩ := x
+    simp only [findSlot] at h
+    cases he : entryOfBytes data bat with
+    | error e => rw [he] at h; cases h
+    | ok en =>
+      rw [he] at h
+      dsimp only at h
+      split at h
+      · cases h; exact ⟨data, by simp⟩
+      · obtain ⟨d, hd⟩ := ih h
+        exact ⟨d, by simp [hd]⟩
+
+theorem slots_sector_range (sd : Side) (s st : Nat) (data : Bytes) (h : (s, st, data) ∈ slots sd) : 2 ≤ s ∧ s ≤ 15 := by
+  simp only [slots, catalogSectors, List.mem_flatMap, List.mem_map, List.mem_range'_1] at h
+  obtain ⟨a, ha, b, _, hb⟩ := h
+  cases hb
+  omega
+
+theorem getBat_putSector_other (sd : Side) (s : Nat) (v : Bytes) (hs : s ≠ batSector) :
+    getBat (putSector sd batTrack s v) = getBat sd := by
+  unfold getBat
+  have : getSector (putSector sd batTrack s v) batTrack batSector = getSector sd batTrack batSector := by
+    apply putSector_other
+    unfold idx; intro h; apply hs; omega
+  rw [this]
+
+theorem sizeInBytes_of (bat : List Nat) (e : Entry) (last u : Nat) (h8 : u ≤ 8) (hlast : e.blocks.getLast? = some last)
+    (hs : bat.getD last 0 = 0xC0 + u) : sizeInBytes bat e = (8 * (e.blocks.length - 1) + u - 1) * 255 + e.lastBytes := by
+  have := C07.size_formula bat e.rec16 e.blocks last u h8 hlast hs
+  unfold sizeInBytes at this ⊢
+  simp only [Entry.lastBytes] at this ⊢
+  exact this
+
+/-- **C02 core: what `writeFile` stores, `readFile` returns.**  On a well-formed side whose table is
+    readable and whose track-20 blocks are not free, a successful `writeFile` leaves a well-formed
+    side whose table is the old one with the new chain linked, and every entry that names that
+    chain and the recorded last-sector count reads back exactly `content` — any content, any size. -/
+theorem writeFile_read_back (sd sd3 : Side) (bat : List Nat) (content : Bytes) (name ext : Str) (kind flag : Nat)
+    (hw : C11.WFSide sd) (hb : getBat sd = .ok bat)
+    (h40 : isFree (bat.getD 40 0) = false) (h41 : isFree (bat.getD 41 0) = false)
+    (hres : writeFile sd content name ext kind flag = .ok sd3) :
+    C11.WFSide sd3
+    ∧ getBat sd3 = .ok (linkChain bat (chosen bat (reqBlocks content.length)) (lastSectorsOf content.length))
+    ∧ (chosen bat (reqBlocks content.length)).length = reqBlocks content.length
+    ∧ ∀ e : Entry, e.blocks = chosen bat (reqBlocks content.length) → e.lastBytes = lastBytesOf content.length →
+        readFile sd3 (linkChain bat (chosen bat (reqBlocks content.length)) (lastSectorsOf content.length)) e = content := by
+  obtain ⟨hb1, hu1, hu8, hlb, hS, hsize, _⟩ := size_law content.length
+  have hblen := getBat_length sd bat hb
+  unfold writeFile at hres
+  rw [hb] at hres
+  simp only [writeFileWith] at hres
+  split at hres
+  · cases hres
+  · rename_i hfit
+    have hfit' : reqBlocks content.length ≤ (chosen bat (reqBlocks content.length)).length := by omega
+    generalize hfree : chosen bat (reqBlocks content.length) = free at hres hfit' ⊢
+    have hflen : free.length = reqBlocks content.length := by
+      have : free.length ≤ reqBlocks content.length := by rw [← hfree]; simp only [chosen]; exact List.length_take_le _ _
+      omega
+    have hlt : ∀ b ∈ free, b < 160 := fun b hb' => hblen ▸ (chosen_free bat _ b (hfree ▸ hb')).1
+    have hnd : free.Nodup := hfree ▸ chosen_nodup bat _
+    have hnot4x : ∀ b ∈ free, b ≠ 40 ∧ b ≠ 41 := by
+      intro b hb'
+      have := (chosen_free bat _ b (hfree ▸ hb')).2
+      constructor
+      · intro h; subst h; rw [h40] at this; cases this
+      · intro h; subst h; rw [h41] at this; cases this
+    unfold placeFile at hres
+    dsimp only at hres
+    generalize hsd1 : writeSectors free content (reqSectors content.length) 0 sd = sd1 at hres
+    generalize hbat' : linkChain bat free (lastSectorsOf content.length) = bat' at hres ⊢
+    have hw1 : C11.WFSide sd1 := hsd1 ▸ writeSectors_wf _ _ _ _ _ hw
+    have hw2 : C11.WFSide (setBat sd1 bat') := by unfold setBat; exact putSector_wf _ _ _ _ hw1
+    have hb'len : bat'.length = 160 := by rw [← hbat', linkChain_length]; exact hblen
+    have hb'valid : bat'.all validStatus = true := hbat' ▸ linkChain_valid free bat _ (getBat_valid sd bat hb) hlt hu1 hu8
+    cases hf : findSlot bat' (slots (setBat sd1 bat')) with
+    | error e => rw [hf] at hres; cases hres
+    | ok o =>
+      rw [hf] at hres
+      cases o with
+      | none => cases hres
+      | some p =>
+        obtain ⟨s, st⟩ := p
+        dsimp only at hres
+        cases hres
+        obtain ⟨data, hmem⟩ := findSlot_mem _ _ _ _ hf
+        obtain ⟨hs2, hs15⟩ := slots_sector_range _ _ _ _ hmem
+        have hw3 : C11.WFSide (putSector (setBat sd1 bat') batTrack s
+              (sliceAssign (getSector (setBat sd1 bat') batTrack s) st (st + 32)
+                (newRecord name ext kind flag (free.getD 0 0) (lastBytesOf content.length)))) := putSector_wf _ _ _ _ hw2
+        have hflatlt : ∀ j, j < reqSectors content.length → flatOf free j < 1280 := by
+          intro j hj
+          unfold flatOf
+          have hj8 : j / 8 < free.length := by omega
+          have hm : free.getD (j / 8) 0 ∈ free := by
+            rw [List.getD_eq_getElem?_getD, List.getElem?_eq_getElem hj8]; simp
+          have := hlt _ hm
+          omega
+        have hflat4x : ∀ j, j < reqSectors content.length → flatOf free j < 320 ∨ 336 ≤ flatOf free j := by
+          intro j hj
+          unfold flatOf
+          have hj8 : j / 8 < free.length := by omega
+          have hm : free.getD (j / 8) 0 ∈ free := by
+            rw [List.getD_eq_getElem?_getD, List.getElem?_eq_getElem hj8]; simp
+          have := hnot4x _ hm
+          omega
+        have hspec := (writeSectors_spec free hnd content (reqSectors content.length) 0 sd (by omega)
+          (fun j _ h2 => by rw [hw.1]; exact hflatlt j (by omega))).2
+        have hdata : ∀ j < reqSectors content.length,
+            (putSector (setBat sd1 bat') batTrack s
+              (sliceAssign (getSector (setBat sd1 bat') batTrack s) st (st + 32)
+                (newRecord name ext kind flag (free.getD 0 0) (lastBytesOf content.length)))).getD (flatOf free j) []
+              = setPayload (sd.getD (flatOf free j) []) (sliceJ content j) := by
+          intro j hj
+          have h4 := hflat4x j hj
+          rw [putSector_flat_other _ _ _ _ _ (by unfold idx batTrack; have : Gen.Disk.sectorsPerTrack = 16 := rfl; rw [this]; omega)]
+          unfold setBat
+          rw [putSector_flat_other _ _ _ _ _ (by unfold idx batTrack batSector; have : Gen.Disk.sectorsPerTrack = 16 := rfl; rw [this]; omega)]
+          rw [← hsd1]
+          exact hspec j (Nat.zero_le _) (by omega)
+        have hgb : getBat (putSector (setBat sd1 bat') batTrack s
+              (sliceAssign (getSector (setBat sd1 bat') batTrack s) st (st + 32)
+                (newRecord name ext kind flag (free.getD 0 0) (lastBytesOf content.length)))) = .ok bat' := by
+          rw [getBat_putSector_other _ _ _ (by unfold batSector; omega)]
+          exact getBat_setBat sd1 bat' hw1 hb'len hb'valid
+        refine ⟨hw3, hgb, hflen, ?_⟩
+        intro e hblocks hlastB
+        have hne : free ≠ [] := by intro h; rw [h] at hflen; simp at hflen; omega
+        obtain ⟨last, hlast⟩ : ∃ last, free.getLast? = some last := by
+          cases h : free.getLast? with
+          | none => simp [List.getLast?_eq_none_iff] at h; exact absurd h hne
+          | some l => exact ⟨l, rfl⟩
+        have hl := linkChain_linked free bat (lastSectorsOf content.length) hnd (fun b hb' => hblen ▸ hlt b hb')
+        rw [hbat'] at hl
+        have hst := linked_last _ free bat' hl last hlast
+        have hsz : sizeInBytes bat' e = content.length := by
+          rw [sizeInBytes_of bat' e last _ hu8 (hblocks ▸ hlast) hst, hblocks, hflen, hlastB, Nat.mul_comm]
+          exact hsize
+        exact readFile_written sd _ bat' free content e hw hw3 hdata hblocks hlastB hflen hlt hsz last hlast hst
 
 end Moto.Disk
